@@ -295,16 +295,41 @@ class Prober:
         return st[0] == "discharged"
 
     def eq(self, oid, got_fn, want):
-        def f():
-            got = got_fn()
-            if isinstance(got, NCArr):
-                got = got.p
-            elif isinstance(got, DiagVec):
-                got = got.mat()
-            elif not isinstance(got, Poly):
-                raise Undecided(f"result of type {type(got).__name__}")
-            return ncalg.decide_equal(got, want, DIMS)
-        return self.attempt(oid, f)
+        box = {}
+
+        def run_code():  # exceptions raised here escape the real code (or its stand-ins): classified by attempt()
+            box["got"] = got_fn()
+            return ("discharged", "nc-trace", "", None)
+        t0 = time.time()
+        # first the trace, recorded under the same id only if it does not end normally
+        try:
+            st = None
+            run_code()
+        except Undecided as e:
+            st = ("unknown", "nc-rewrite", f"outside the modelled fragment: {e}", None)
+        except Exception as e:  # noqa: BLE001
+            tb = traceback.format_exc().strip().splitlines()
+            where = next((l.strip() for l in reversed(tb) if "mici/" in l), tb[-1])
+            if isinstance(e, (TypeError, AttributeError)) and any(t in str(e) for t in STANDINS):
+                st = ("unknown", "nc-rewrite", f"outside the modelled fragment: {type(e).__name__}: {e} at {where}", None)
+            else:
+                st = ("failed", "nc-exception", f"{type(e).__name__}: {e} escapes at {where}", None)
+        if st is None:
+            try:  # exceptions raised from here on are the checker's own: undecided, never a violation
+                got = box["got"]
+                if isinstance(got, NCArr):
+                    got = got.p
+                elif isinstance(got, DiagVec):
+                    got = got.mat()
+                elif not isinstance(got, Poly):
+                    raise Undecided(f"result of type {type(got).__name__}")
+                st = ncalg.decide_equal(got, want, DIMS)
+            except Undecided as e:
+                st = ("unknown", "nc-rewrite", f"outside the modelled fragment: {e}", None)
+            except Exception as e:  # noqa: BLE001
+                st = ("unknown", "nc-checker-error", f"{type(e).__name__}: {e}", None)
+        self.ob(oid, st, time.time() - t0)
+        return st[0] == "discharged"
 
     def probe(self, O, E, pre, depth, sym=False, pd=False, no_inv=False):
         M = self.M
@@ -352,13 +377,13 @@ class Prober:
             if sym:
                 self.attempt(f"{pre}T/symmetric-class-transpose-is-self", lambda: ("discharged", "nc-rewrite", "", None) if (T is O or ncalg.nf(view(T, M) - E).is_zero()) else ("failed", "nc-rewrite", "transpose of a symmetric object differs", None))
             if T is not O:
-                self.probe(T, E.T(), f"{pre}T/", depth - 1)
+                self.probe(T, E.T(), f"{pre}T/", depth - 1, no_inv=no_inv)
         # scalar multiples
         c = ncalg.Scal(sp.Symbol("c", positive=True))
         for lab, s in (("pos", c), ("neg", -c)):
             P = self._get(f"{pre}*{lab}/constructs", lambda s=s: s * O)
             if P is not None:
-                self.probe(P, E.scale(s.e), f"{pre}*{lab}/", depth - 1, sym=sym, pd=pd and lab == "pos")
+                self.probe(P, E.scale(s.e), f"{pre}*{lab}/", depth - 1, sym=sym, pd=pd and lab == "pos", no_inv=no_inv)
                 if pd and lab == "pos":
                     self.attempt(f"{pre}*{lab}/stays-positive-definite", lambda P=P: ("discharged", "nc-type", "", None) if isinstance(P, M.PositiveDefiniteMatrix) else ("failed", "nc-type", f"positive multiple of a positive definite object is a {type(P).__name__}", None))
         Dv = self._get(f"{pre}div-pos/constructs", lambda: O / c)
@@ -504,6 +529,9 @@ def cases(M, F=None):
     return _cases(M, F or SymbolicFactory(M))
 
 
+_DEPTH = 2  # probe depth for derived objects (3 in the thorough tier)
+
+
 def _gwork(name):
     """one case in a worker process -> list of recorded obligations"""
     class Rec:
@@ -522,7 +550,7 @@ def _gwork(name):
         try:
             O, kw = cases(M)[name]()
             E = view(O, M)
-            pr.probe(O, E, "", 2, **kw)
+            pr.probe(O, E, "", _DEPTH, **kw)
         except Undecided as e:
             rec.ob(f"generic/{name}/constructs", core.UNKNOWN, "nc-trace", time.time() - t0, f"outside the modelled fragment: {e}")
         except Exception as e:  # noqa: BLE001
@@ -537,6 +565,8 @@ def _gwork(name):
 def run_generic(run, tier="quick", only=None, procs=16, keep=None):
     """adds the dimension-generic obligations to `run` (all of them, or those whose id passes `keep`); returns (cases, obligations)"""
     import multiprocessing as mp
+    global _DEPTH
+    _DEPTH = 3 if tier == "thorough" else 2
     M = load()
     run.function("matrices.Matrix.__matmul__/__rmatmul__/__mul__/__truediv__/__neg__/transpose/inv/sqrt (template code; generic dimension)")
     run.function("matrices.MatrixProduct / SquareMatrixProduct / InvertibleMatrixProduct (all methods; generic dimension; contract operands)")
